@@ -184,6 +184,15 @@ func (c *Ctx) c19Composition() {
 		}
 	}
 	nested(sm)
+	// the composing closure may be built by a named function of the package that the option calls
+	// (chainSessionHandlers(parent, next))
+	for _, f := range allNested(sm) {
+		for _, ci := range core.Calls(f) {
+			if h := core.StaticCallee(ci); h != nil && h.Parent() == nil && c.P.InPkg(h, "wire") && h.Blocks != nil && h != sm {
+				nested(h)
+			}
+		}
+	}
 	R.Floor("C19.R2", "composed session handlers built by SessionMiddleware", len(composed), 1)
 	okReg := false
 	for _, fn := range composed {
@@ -242,7 +251,7 @@ func (c *Ctx) c19Composition() {
 		prevOK, regOK := false, false
 		why := "the first callee is not a captured variable"
 		if fv != nil && fn.Parent() != nil {
-			why = c.chainBinding(fn, fv, &prevOK, &regOK)
+			why = c.chainBinding(fn, fv, &prevOK, &regOK, allNested(sm))
 		}
 		R.Check(prevOK, "C19.R2", fk+":first-is-previous", c.at(first), "the handler that runs first is the previously registered chain, so middlewares run in registration order", "the first callee is bound to the value of Server.Session read before the registration", "cannot establish that the first callee is the previously registered handler: "+why)
 		if regOK {
@@ -257,7 +266,7 @@ func (c *Ctx) c19Composition() {
 // of Server.Session that precedes the store of the closure to Server.Session), or by a wrapper function
 // literal (binding = the wrapper's parameter, the wrapper returns the closure, and the store is
 // Server.Session = wrapper(Server.Session)).
-func (c *Ctx) chainBinding(fn *ssa.Function, fv *ssa.FreeVar, prevOK, regOK *bool) string {
+func (c *Ctx) chainBinding(fn *ssa.Function, fv *ssa.FreeVar, prevOK, regOK *bool, optionFns []*ssa.Function) string {
 	idx := -1
 	for i, v := range fn.FreeVars {
 		if v == fv {
@@ -317,10 +326,8 @@ func (c *Ctx) chainBinding(fn *ssa.Function, fv *ssa.FreeVar, prevOK, regOK *boo
 	}
 	w := fn.Parent()
 	if prm, isParam := bind.(*ssa.Parameter); isParam {
-		// wrapper shape
-		if w.Parent() == nil {
-			return "the binding is a parameter of a named function"
-		}
+		// wrapper shape: a function literal inside the option, or a named function the option calls
+		named := w.Parent() == nil
 		for _, r := range returns(w) {
 			if len(r.Results) != 1 || strip(forwardLoad(r.Results[0])) != ssa.Value(mc) {
 				return "the wrapper does not return the composed handler on every path"
@@ -334,7 +341,14 @@ func (c *Ctx) chainBinding(fn *ssa.Function, fv *ssa.FreeVar, prevOK, regOK *boo
 		}
 		var mw *ssa.MakeClosure
 		var wv ssa.Value
-		for _, b := range w.Parent().Blocks {
+		hosts := optionFns
+		if !named {
+			hosts = []*ssa.Function{w.Parent()}
+		}
+		for _, b := range hosts[0].Blocks {
+			if named {
+				break
+			}
 			for _, in := range b.Instrs {
 				if m, ok := in.(*ssa.MakeClosure); ok && m.Fn == ssa.Value(w) {
 					mw = m
@@ -347,7 +361,11 @@ func (c *Ctx) chainBinding(fn *ssa.Function, fv *ssa.FreeVar, prevOK, regOK *boo
 			wv = w // a function literal without captures
 		}
 		nSites := 0
-		for _, st := range sessionStores(w.Parent()) {
+		var stores []*ssa.Store
+		for _, h := range hosts {
+			stores = append(stores, sessionStores(h)...)
+		}
+		for _, st := range stores {
 			call, ok := strip(st.Val).(*ssa.Call)
 			if !ok || strip(call.Call.Value) != wv && !(mw == nil && core.StaticCallee(call) == w) {
 				continue
@@ -669,6 +687,13 @@ func (c *Ctx) c19Terminate() {
 	}
 	if hookFn != nil {
 		skip := map[edge]bool{}
+		for _, prm := range hookFn.Params { // the hook handed in as an argument: its nil test is the same test
+			if hookOfParam(prm) == "terminate" {
+				for _, e := range nilEdges(prm, true) {
+					skip[e] = true
+				}
+			}
+		}
 		for _, b := range hookFn.Blocks {
 			for _, in := range b.Instrs {
 				if u, ok := in.(*ssa.UnOp); ok {
